@@ -1,5 +1,5 @@
 import random, signal, sys, collections
-src=open('/tmp/probe/p15.py').read().split("rng=random.Random(int(sys.argv[1])); bad=0")[0]
+src=open(__import__('os').path.join(__import__('os').path.dirname(__import__('os').path.abspath(__file__)),'p15.py')).read().split("rng=random.Random(int(sys.argv[1])); bad=0")[0]
 exec(src)
 mon=sys.monitoring; TOOL=3; mon.use_tool_id(TOOL,"clk")
 cnt=[0]; LIM=[3_000_000]
